@@ -18,7 +18,12 @@ PNV = ['100', '200', '300', '400', '500', '600', '700', '800']
 
 
 def name(c):
-    return 'c%d' % c
+    # names as acquisition programs write them: two of them carry a blank (kept verbatim by the TEXT reader: `c1 ` and
+    # ` c2` are the names, `c1` and `c2` name nothing)
+    return {1: 'c1 ', 2: ' c2'}.get(c, 'c%d' % c)
+
+
+NAME_COL = {name(c): c for c in range(100)}
 
 
 def base_values(R, C):
@@ -70,7 +75,7 @@ def project_meta(x):
         except Exception as e:   # noqa
             out[label] = 'raises:' + type(e).__name__
 
-    grab('chan', lambda: list(x.channels), lambda v: int(v[1:]) if isinstance(v, str) and v[1:].isdigit() else 'unknown:%r' % (v,))
+    grab('chan', lambda: list(x.channels), lambda v: NAME_COL[v] if v in NAME_COL else 'unknown:%r' % (v,))
     grab('rng', lambda: x.range(), lambda v: col_of([float(p - 1) for p in PNR], float(v[1])) if float(v[0]) == 0.0 else 'lo:%r' % (v,))
     grab('res', lambda: x.resolution(), lambda v: col_of(PNR, int(v)))
     grab('amp', lambda: x.amplification_type(), lambda v: _amp_col(v))
